@@ -323,11 +323,26 @@ def history(ctx, seed):
                                   f"{short(o.spec)} raised {type(ex).__name__}: {ex}", {"seed": seed, "step": step})
                 log.append((step, short(o.spec)[:40], "clone", None, "ok"))
             else:
-                op = ["predict", "transform", "transform_scores", "scores_table"][int(rng.integers(4))]
+                op = ["predict", "transform", "transform_scores", "scores_table", "fit_predict",
+                      "fit_transform"][int(rng.integers(6))]
                 arg = D.copy(deep=True)
                 if o.spec["cls"] == "StatThresholdAnomaliser" and arg.shape[1] > 1:
                     arg = arg.iloc[:, [0]]
-                st, val = call(o.obj, op, arg)
+                if op in ("fit_predict", "fit_transform"):
+                    # convenience methods: the same as fit(X) followed by predict(X) / transform(X)
+                    st, val = call(o.obj, op, arg)
+                    ctx.stat("fit_convenience_events")
+                    if st == "ok":
+                        o.train = arg
+                        o.index_kind = "datetime" if isinstance(arg.index, pd.DatetimeIndex) else "range0"
+                    else:
+                        if not o.shared:
+                            o.obj = build(o.spec)
+                            o.train = None
+                        continue
+                    op = op[4:]
+                else:
+                    st, val = call(o.obj, op, arg)
                 hits = [h for h in I.drain() if h["contract"] == "K3"]
                 for h in hits:
                     ctx.violation("contract-K3", "input-or-params-modified", f"history {seed} step {step}: "
